@@ -357,3 +357,15 @@ package activitypub
 //@   invariant (forall (k) (=> (and (<= 0 k) (< k (len result^)))
 //@               (and (exists (m) (and (<= 0 m) (<= m rangeindex^) (= (at result^ k) (at col m))))
 //@                    (forall (j) (=> (and (<= 0 j) (< j (len items))) (or (isNilItem (at result^ k)) (isNilItem (at items j)) (not (iriEq (idOf (at result^ k)) (idOf (at items j)) false))))))))
+
+// Byte level (govc/bytevc.go): the output buffer is ghost state. `consumed` is the number of input bytes the
+// bytes written so far decode to; (rawsafe k) says that s[k] may stand unescaped inside a JSON string
+// (0x20..0x7f except quote and backslash, or a byte of a valid UTF-8 sequence); (jsonString e s) says that
+// what was appended to e is one JSON string literal that decodes to s, each byte at which utf8.DecodeRune
+// reports an invalid encoding replaced by U+FFFD.
+//@ func stringBytes
+//@ ensures (jsonString e s)
+//@ loop 0
+//@   invariant (and (<= 0 start) (<= start i) (<= i (len s)) (= consumed start))
+//@   invariant (forall (k) (=> (and (<= start k) (< k i)) (rawsafe k)))
+//@   decreases (- (len s) i)
